@@ -297,7 +297,7 @@ def run(ctx):
             else:
                 arr_old = numpy.asarray(r_old[1].get_array(), dtype='f8')
                 if ([path_ring(p_) for p_ in r_old[1].get_paths()] != paths or not numpy.array_equal(arr_old, arr, equal_nan=True)
-                        or tuple(r_old[1].get_clim()) != tuple(clim)):
+                        or not numpy.array_equal(numpy.asarray(r_old[1].get_clim(), dtype='f8'), numpy.asarray(clim, dtype='f8'), equal_nan=True)):
                     ctx.report('property', 'make_patch_collection does not build the patches, values and colour limits that '
                                'make_poly_collection builds', dict(case, through='make_patch_collection'))
         # user overrides: array= and clim= are passed through untouched
